@@ -138,7 +138,7 @@ impl Prop for C13 {
          layer directories handed over in canonical or equivalent non-canonical spellings, optionally followed by a few writes through the filesystem, then queries: list(dir, pattern, localized) for dir in {root '', '.', existing, nested, with trailing slash, missing, a path that is a file} and pattern in {none, '*', '*.bin', '**/*.bin', '**/*', 'sub dir/*', 'map*'}, and subdirectories(dir, localized); 5 games x 8 languages. \
          Oracle, computed from a std::fs walk of every layer: the set of layer-relative paths (files and directories) strictly under dir in any layer whose dir is a directory, filtered by the harness's own matcher for that glob family, de-duplicated and sorted in ascending string order; \
          sub-directories = immediate child directories in any layer; every listed path satisfies exists(p, false); a missing directory lists as empty; list(d, g, true) == list(localize(d), g, false) (and an error for unsupported pairs). \
-         Non-trivial: >= 2 layers contribute to a result and at least one listed path occurs in two of them; or a single-layer result whose glob order differs from sorted order. Distinct = distinct case value."
+         Two crowded layers (700 files, 87 sub-directories, half of the names in both layers) are listed with every pattern. Non-trivial: >= 2 layers contribute to a result and at least one listed path occurs in two of them; or a single-layer result whose glob order differs from sorted order. Distinct = distinct case value."
             .into()
     }
     fn assumptions() -> Vec<String> {
